@@ -4,6 +4,7 @@ import (
 	"fmt"
 	"go/token"
 	"go/types"
+	"os"
 	"sort"
 	"strings"
 
@@ -97,6 +98,11 @@ func ctxDeadline(c *Ctx, v ssa.Value, f *ssa.Function, depth int) (bool, string)
 		sites := 0
 		for _, e := range n.In {
 			if !core.InModule(e.Caller.Func) || e.Site == nil || strings.Contains(core.FuncName(e.Caller.Func), "Mock") {
+				continue
+			}
+			// a compiler-made wrapper (pointer-receiver form of a value method, bound-method thunk) that nothing calls is not a
+			// caller: it exists in the call graph only because the method set has it
+			if e.Caller.Func.Synthetic != "" && len(e.Caller.In) == 0 {
 				continue
 			}
 			args := e.Site.Common().Args
@@ -891,7 +897,9 @@ func checkLoops(c *Ctx, fs []*ssa.Function) {
 				}
 			}
 			if cls == "" {
-				cls, why = structuralLoopClass(c, f, h, loop)
+				if cls2, why2 := structuralLoopClass(c, f, h, loop); cls2 != "" {
+					cls, why = cls2, why2
+				}
 			}
 			if cls == "" {
 				if reason, ok := loopExceptions[fn]; ok {
@@ -960,8 +968,16 @@ func classifyLoop(c *Ctx, f *ssa.Function, h *ssa.BasicBlock, loop map[*ssa.Basi
 			}
 		}
 		// (b) context test on every iteration
+		if os.Getenv("TRCHECK_DEBUG") != "" {
+			cc, _ := condCall(e.iff)
+			fmt.Println("LOOPDBG", core.FuncName(f), "exit from", e.from.Index, "cond", e.iff.Cond, "condCall", cc, "everyIter", everyIter(e.from), "hdr", h.Index)
+		}
 		if cc, _ := condCall(e.iff); cc != nil && cc.Common().IsInvoke() && cc.Common().Method.Name() == "Err" && (e.from == h || everyIter(e.from)) {
-			if ok, why := ctxDeadline(c, cc.Common().Value, f, 0); ok {
+			ok, why := ctxDeadline(c, cc.Common().Value, f, 0)
+			if os.Getenv("TRCHECK_DEBUG") != "" {
+				fmt.Println("LOOPDBG ctxDeadline", ok, why)
+			}
+			if ok {
 				return "context", "tests ctx.Err() of a deadline-bearing context on every iteration (" + why + ")"
 			}
 		}
